@@ -39,6 +39,8 @@ type sourceFragment struct {
 	program            *analysis.ProgramInfo
 	simpleCheckpoint   factstore.FactStoreWithRemove
 	temporalCheckpoint factstore.TemporalFactStore
+	// The known predicates before this fragment was pushed.
+	knownCheckpoint map[ast.PredicateSym]ast.Decl
 }
 
 // Interpreter is an interactive interpreter.
@@ -207,6 +209,14 @@ func (i *Interpreter) pushLoadedFragment(pathset string, units []parse.SourceUni
 
 	fmt.Fprintf(i.out, "loaded %s.\n", pathset)
 	return i.evalProgram(programInfo)
+}
+
+func copyDecls(decls map[ast.PredicateSym]ast.Decl) map[ast.PredicateSym]ast.Decl {
+	res := make(map[ast.PredicateSym]ast.Decl, len(decls))
+	for sym, decl := range decls {
+		res[sym] = decl
+	}
+	return res
 }
 
 // ParseQuery parses a query string. It can either be a predicate name,
@@ -410,7 +420,7 @@ func (i *Interpreter) Preload(units []parse.SourceUnit, store factstore.FactStor
 
 func (i *Interpreter) pushSourceFragment(pathset string, units []parse.SourceUnit, programInfo *analysis.ProgramInfo) {
 	i.src = append(i.src, pathset)
-	i.sourceFragments[pathset] = &sourceFragment{units, programInfo, i.simpleStore, i.temporalStore}
+	i.sourceFragments[pathset] = &sourceFragment{units, programInfo, i.simpleStore, i.temporalStore, copyDecls(i.knownPredicates)}
 	for _, decl := range programInfo.Decls {
 		i.knownPredicates[decl.DeclaredAtom.Predicate] = *decl
 	}
@@ -451,9 +461,7 @@ func (i *Interpreter) popSourceFragment() *sourceFragment {
 	f := i.sourceFragments[path]
 	i.src = i.src[:l-1]
 	delete(i.sourceFragments, path)
-	for _, decl := range f.program.Decls {
-		delete(i.knownPredicates, decl.DeclaredAtom.Predicate)
-	}
+	i.knownPredicates = f.knownCheckpoint
 	i.simpleStore = f.simpleCheckpoint
 	i.temporalStore = f.temporalCheckpoint
 	i.updateCombinedStore()
